@@ -10,7 +10,7 @@ from geolib import Gen, Obj, call_impl
 from proto import ET, dec_tens, proj_close, proj_close_nn, run_driver
 
 ID = "C10"
-LEAN_FILES = ["Geo/Props/C10.lean"]
+LEAN_FILES = ["Geo/Props/C10.lean", "Geo/Props/C10b.lean"]
 RULE = ("2-D lines (vertical, horizontal, through the origin, b=0, c=0, generic) and 3-D planes / lines x points on and off: project and "
         "mirror compared with the exact Cartesian foot / mirror image (S-layer), perpendicular / parallel checked for incidence with the "
         "point and for the Cartesian direction; involution and midpoint; predicates is_perpendicular / is_parallel / is_cocircular / "
@@ -487,7 +487,59 @@ def cocircular3d_stream(ctx, n):
             ctx.disagree("C10:cocircular3d:" + mode, desc, mode == "on", r[1:3], replay=[desc])
 
 
+def generated_case_analysis_stream(ctx, n):
+    """LineTensor.base_point / direction of lines of the plane against the case analyses regenerated from the source
+    (Gen.line_base_point, Gen.line_direction — the objects of T10_base_point_2d / T10_direction_2d), coordinate by coordinate"""
+    import geometer as g
+    rng = ctx.rng
+    lines = [[0, 0, 1], [1, 0, 0], [0, 1, 0], [1, 0, -2], [0, 3, 5], [2, -1, 0]]
+    while len(lines) < n:
+        lines.append([rng.randint(-4, 4) for _ in range(3)])
+    lines = [l for l in lines if any(l)]
+    reqs = [f"gen.basepoint2 {vt([Fraction(x) for x in l])}" for l in lines] + [f"gen.direction2 {vt([Fraction(x) for x in l])}" for l in lines]
+    ans = run_driver(reqs)
+    for i, l in enumerate(lines):
+        L = g.Line(np.array(l, dtype=float))
+        for name, a, f in (("base_point", ans[i], lambda: L.base_point), ("direction", ans[len(lines) + i], lambda: L.direction)):
+            exp = [float(r) for r, _ in dec_tens(a.split(" ")[1]).entries]
+            desc = f"{name} of the line {l}"
+            ctx.case(desc)
+            ctx.count("generated:" + name)
+            r = call_impl(f)
+            if r[0] != "ok" or not np.array_equal(np.asarray(r[1].array, dtype=float), np.array(exp)):
+                ctx.disagree(f"C10:generated:{name}", desc, exp, r[1:3] if r[0] != "ok" else np.asarray(r[1].array).tolist(), replay=[desc])
+
+
+def complex_line3_stream(ctx, n):
+    """lines of space through points with complex coordinates: base_point and the rows of basis_matrix are points of the line,
+    the rows are orthonormal (Hermitian), the direction is at infinity on the line"""
+    import geometer as g
+    rng = ctx.rng
+    for k in range(n):
+        def cp():
+            return np.array([complex(rng.randint(-3, 3), rng.randint(-2, 2)) for _ in range(3)] + [1.0])
+        p, q = cp(), cp()
+        if np.linalg.matrix_rank(np.stack([p, q])) < 2 or not (np.any(p.imag) or np.any(q.imag)):
+            continue
+        desc = f"complex line of space through {p[:3].tolist()} and {q[:3].tolist()}"
+        ctx.case(desc)
+        ctx.count("complex-line3")
+        def run():
+            l = g.Line(g.Point(p), g.Point(q))
+            m = np.asarray(l.basis_matrix)
+            return (bool(l.contains(l.base_point)), [bool(l.contains(g.Point(r))) for r in m], bool(np.allclose(m @ m.conj().T, np.eye(2), atol=1e-9)),
+                    bool(l.contains(l.direction)), bool(abs(np.asarray(l.direction.array)[-1]) <= 1e-9 * np.linalg.norm(l.direction.array)))
+        r = call_impl(run)
+        if r[0] != "ok" or r[1] != (True, [True, True], True, True, True):
+            ctx.disagree("C10:complex-line3", desc, "(base point on the line, both basis rows on the line, orthonormal, direction on the line, at infinity)",
+                         r[1:3], replay=[desc])
+
+
 def correspondence(ctx):
+    import colllib
+    colllib.run(ctx, ctx.budget(40, 400), prefix="C10", only={"angle_bisectors3"}, patterns=["k", "1", "k1", "1k"])
+    complex_line3_stream(ctx, ctx.budget(40, 400))
+    generated_case_analysis_stream(ctx, ctx.budget(60, 600))
     cocircular3d_stream(ctx, ctx.budget(40, 400))
     scaled_parallel_stream(ctx, ctx.budget(60, 600))
     collinear_collections(ctx, ctx.budget(30, 300))
